@@ -13,12 +13,12 @@ structure Item where
   key : FKey
   proto : Scaffold
   rows : List Row
-  gap : List Row → Option Gap
+  add : List Row → List Row     -- what the step does to the rows built so far (always: `built ++ separators ++ rows`)
 
 def fuseStep (acc : List (FKey × Scaffold)) (it : Item) : List (FKey × Scaffold) :=
   match dGet? acc it.key with
-  | some s => dSet acc it.key { s with rows := Scaffold.appendRows s.rows it.rows (it.gap s.rows) }
-  | none => acc ++ [(it.key, { it.proto with rows := Scaffold.appendRows [] it.rows (it.gap []) })]
+  | some s => dSet acc it.key { s with rows := it.add s.rows }
+  | none => acc ++ [(it.key, { it.proto with rows := it.add [] })]
 
 def itemOfRes (b : Build) (r : Res) : Option Item :=
   if ¬ r.added ∨ r.o.rows.isEmpty then none
@@ -27,16 +27,16 @@ def itemOfRes (b : Build) (r : Res) : Option Item :=
       proto := { name := r.o.name, tag := r.o.tag, haplotype := r.o.haplotype, rank := r.o.rank,
                  originalName := r.o.originalName, originalTags := r.o.originalTags }
       rows := r.o.toScaffoldRows
-      gap := fun _ => b.joinGap }
+      add := fun built => Scaffold.appendRows built r.o.toScaffoldRows b.joinGap }
 
-def itemOfExtra (b : Build) (e : Scaffold × Option (Fragment × Option Gap)) : Option Item :=
+def itemOfExtra (b : Build) (e : Scaffold × Option (Fragment × List Gap)) : Option Item :=
   if e.1.rows.isEmpty then none
   else some
     { key := (e.1.tag, e.1.haplotype, e.1.name)
       proto := { name := e.1.name, tag := e.1.tag, haplotype := e.1.haplotype, rank := e.1.rank,
                  originalName := e.1.originalName, originalTags := e.1.originalTags }
       rows := e.1.rows
-      gap := fun built => gapBeforeLeftover b.joinGap built e.2 }
+      add := fun built => built ++ gapsBeforeLeftover b.joinGap built e.2 ++ e.1.rows }
 
 def fuseItems (b : Build) : List Item := b.store.filterMap (itemOfRes b) ++ b.extra.filterMap (itemOfExtra b)
 
@@ -73,7 +73,9 @@ theorem fuseByName_eq (b : Build) : fuseByName b = (fuseAcc b).map (·.2) := by
 
 /-! ### invariants of the fold -/
 
-def ItemOk (it : Item) : Prop := (it.proto.tag, it.proto.haplotype, it.proto.name) = it.key
+def ItemOk (it : Item) : Prop :=
+  (it.proto.tag, it.proto.haplotype, it.proto.name) = it.key ∧
+  ∀ built, built <+: it.add built ∧ it.rows <:+ it.add built
 
 def AccOk (acc : List (FKey × Scaffold)) : Prop :=
   (∀ p ∈ acc, (p.2.tag, p.2.haplotype, p.2.name) = p.1) ∧ (acc.map (·.1)).Nodup
@@ -103,11 +105,11 @@ theorem appendRows_suffix (rows othr : List Row) (g : Option Gap) : othr <:+ Sca
     · simp only [if_neg h]; exact List.suffix_append _ _
 
 theorem fuseStep_none (acc : List (FKey × Scaffold)) (it : Item) (hg : dGet? acc it.key = none) :
-    fuseStep acc it = acc ++ [(it.key, { it.proto with rows := Scaffold.appendRows [] it.rows (it.gap []) })] := by
+    fuseStep acc it = acc ++ [(it.key, { it.proto with rows := it.add [] })] := by
   unfold fuseStep; rw [hg]
 
 theorem fuseStep_some (acc : List (FKey × Scaffold)) (it : Item) (s : Scaffold) (hg : dGet? acc it.key = some s) :
-    fuseStep acc it = dSet acc it.key { s with rows := Scaffold.appendRows s.rows it.rows (it.gap s.rows) } := by
+    fuseStep acc it = dSet acc it.key { s with rows := it.add s.rows } := by
   unfold fuseStep; rw [hg]
 
 theorem fuseStep_ok (acc : List (FKey × Scaffold)) (it : Item) (ha : AccOk acc) (hi : ItemOk it) :
@@ -119,7 +121,7 @@ theorem fuseStep_ok (acc : List (FKey × Scaffold)) (it : Item) (ha : AccOk acc)
     · intro p hp
       rcases List.mem_append.1 hp with hp | hp
       · exact ha.1 p hp
-      · simp at hp; subst hp; exact hi
+      · simp at hp; subst hp; exact hi.1
     · simp only [List.map_append, List.map_cons, List.map_nil]
       refine List.nodup_append.2 ⟨ha.2, by simp, ?_⟩
       intro a ha' b hb
@@ -136,20 +138,21 @@ theorem fuseStep_ok (acc : List (FKey × Scaffold)) (it : Item) (ha : AccOk acc)
       · exact ha.1 p hp
     · rw [dSet_keys_of_some acc it.key _ s hg]; exact ha.2
 
-theorem fuseStep_holds_new (acc : List (FKey × Scaffold)) (it : Item) : Holds (fuseStep acc it) it.key it.rows := by
+theorem fuseStep_holds_new (acc : List (FKey × Scaffold)) (it : Item) (hi : ItemOk it) :
+    Holds (fuseStep acc it) it.key it.rows := by
   unfold Holds
   cases hg : dGet? acc it.key with
   | none =>
     rw [fuseStep_none acc it hg]
-    refine ⟨{ it.proto with rows := Scaffold.appendRows [] it.rows (it.gap []) }, ?_, ?_⟩
+    refine ⟨{ it.proto with rows := it.add [] }, ?_, ?_⟩
     · rw [dGet?_append_single, hg]; simp only [if_true]
-    · exact (appendRows_suffix _ _ _).isInfix
+    · exact (hi.2 []).2.isInfix
   | some s =>
     rw [fuseStep_some acc it s hg]
     refine ⟨_, dGet?_dSet_self _ _ _, ?_⟩
-    exact (appendRows_suffix _ _ _).isInfix
+    exact (hi.2 s.rows).2.isInfix
 
-theorem fuseStep_holds_mono (acc : List (FKey × Scaffold)) (it : Item) (k : FKey) (rows : List Row)
+theorem fuseStep_holds_mono (acc : List (FKey × Scaffold)) (it : Item) (hi : ItemOk it) (k : FKey) (rows : List Row)
     (h : Holds acc k rows) : Holds (fuseStep acc it) k rows := by
   obtain ⟨s, hs, hr⟩ := h
   unfold Holds
@@ -164,7 +167,7 @@ theorem fuseStep_holds_mono (acc : List (FKey × Scaffold)) (it : Item) (k : FKe
     · subst hk
       rw [hg] at hs; cases hs
       refine ⟨_, dGet?_dSet_self _ _ _, ?_⟩
-      exact List.IsInfix.trans hr (appendRows_prefix _ _ _).isInfix
+      exact List.IsInfix.trans hr (hi.2 _).1.isInfix
     · refine ⟨s, ?_, hr⟩
       rw [dGet?_dSet_ne _ _ _ _ hk, hs]
 
@@ -199,10 +202,10 @@ theorem fuseFold_spec (items : List Item) (hi : ∀ it ∈ items, ItemOk it) :
     obtain ⟨h1, h2, h3, h4⟩ := ih (fun x hx => hi x (by simp [hx])) (fuseStep acc it) (fuseStep_ok acc it ha hit)
     refine ⟨h1, ?_, ?_, ?_⟩
     · intro k rows h
-      exact h2 k rows (fuseStep_holds_mono acc it k rows h)
+      exact h2 k rows (fuseStep_holds_mono acc it hit k rows h)
     · intro x hx
       rcases List.mem_cons.1 hx with hx | hx
-      · subst hx; exact h2 _ _ (fuseStep_holds_new acc x)
+      · subst hx; exact h2 _ _ (fuseStep_holds_new acc x hit)
       · exact h3 x hx
     · intro p hp
       rcases h4 p hp with h | ⟨x, hx, hk⟩
@@ -216,14 +219,17 @@ theorem itemOfRes_ok (b : Build) (r : Res) (it : Item) (h : itemOfRes b r = some
   unfold itemOfRes at h
   split at h
   · cases h
-  · cases h; rfl
+  · cases h
+    exact ⟨rfl, fun built => ⟨appendRows_prefix _ _ _, appendRows_suffix _ _ _⟩⟩
 
-theorem itemOfExtra_ok (b : Build) (e : Scaffold × Option (Fragment × Option Gap)) (it : Item)
+theorem itemOfExtra_ok (b : Build) (e : Scaffold × Option (Fragment × List Gap)) (it : Item)
     (h : itemOfExtra b e = some it) : ItemOk it := by
   unfold itemOfExtra at h
   split at h
   · cases h
-  · cases h; rfl
+  · cases h
+    refine ⟨rfl, fun built => ⟨?_, List.suffix_append _ _⟩⟩
+    simp only [List.append_assoc]; exact List.prefix_append _ _
 
 theorem fuseItems_ok (b : Build) : ∀ it ∈ fuseItems b, ItemOk it := by
   intro it h
